@@ -382,6 +382,26 @@ def limits_fixed(ctx: Ctx):
     return part
 
 
+def limits_grid_shard(ctx: Ctx):
+    """Deterministic: every arrangement of three members with sizes from {0, L-1, L, L+1} (L = 64) in every archive kind and 7z layout, judged like the drawn cases.
+    (An oversize member first and an empty one behind it, two oversize members around a small one, ... - arrangements the random part meets only now and then.)"""
+    import itertools
+    part = Partial()
+    L = 64
+    kinds = [("zip", "per-file"), ("tar", "per-file"), ("tar.gz", "per-file"), ("7z", "per-file"), ("7z", "solid"), ("7z", "mixed")]
+    combos = [(f, lay, sizes) for f, lay in kinds for sizes in itertools.product([0, L - 1, L, L + 1], repeat=3)]
+    mine = [c for i, c in enumerate(combos) if i % ctx.nshards == ctx.shard]
+    for f, lay, sizes in mine:
+        c = {"kind": "member-limit", "fmt": f, "limit": L, "sizes": list(sizes), "layout": lay, "links": [], "same_name": None}
+        fails = judge_member_limit(f, L, list(sizes), lay, [], None)
+        part.case(digest(c), True, sample=c if part.evaluations % 97 == 0 else None, limit="member-limit-grid", fmt=f)
+        for cl, d in fails[:1]:
+            if len(part.violations) < 3:
+                part.violations.append(Violation(cl, f"C12:member-limit:{cl}", d, dict(c)))
+    part.exhaustive["member sizes {0, L-1, L, L+1}^3 x archive kind x 7z layout"] = len(combos)
+    return part
+
+
 def limits_random_shard(ctx: Ctx):
     part = Partial()
 
@@ -419,6 +439,7 @@ def run(ctx: Ctx) -> Partial:
     part = Partial()
     part.merge(shard_map(ctx, "vf.props.c12", "limits_fixed", 14))
     part.merge(shard_map(ctx, "vf.props.c12", "limits_random_shard", 8))
+    part.merge(shard_map(ctx, "vf.props.c12", "limits_grid_shard", 8))
     part.merge(shard_map(ctx, "vf.props.c12", "amp_grid_shard", 75))
     part.merge(shard_map(ctx, "vf.props.c12", "amp_random_shard", 32))
     part.exhaustive["amplifier grid (family x variant x magnitude)"] = len(grid_cases())
